@@ -1314,6 +1314,9 @@ func (f *Frame) varAtEnd(b, header *ssa.BasicBlock, name string, pos token.Pos, 
 			}
 		}
 	}
+	if v, ok := f.allocOf(cands, st); ok {
+		return v, true
+	}
 	for blk := b; blk != nil && blk != header.Idom(); blk = blk.Idom() {
 		for i := len(blk.Instrs) - 1; i >= 0; i-- {
 			v, ok := blk.Instrs[i].(ssa.Value)
@@ -1375,6 +1378,9 @@ func (f *Frame) varAt(b *ssa.BasicBlock, name string, pos token.Pos, st *State, 
 		for _, v := range f.debugVals[obj] {
 			cands[v] = true
 		}
+	}
+	if v, ok := f.allocOf(cands, st); ok {
+		return v, true
 	}
 	// walk up the dominator tree from b
 	for blk := b; blk != nil; blk = blk.Idom() {
@@ -1525,4 +1531,16 @@ func staticallyFresh(v ssa.Value, seen map[ssa.Value]bool) bool {
 		return true
 	}
 	return false
+}
+
+// allocOf: if the variable lives in memory (its address is taken), its current content must be loaded.
+func (f *Frame) allocOf(cands map[ssa.Value]bool, st *State) (Val, bool) {
+	for v := range cands {
+		if a, ok := v.(*ssa.Alloc); ok {
+			if av, ok := f.vals[a]; ok {
+				return f.g.loadVal(st, av.Comps[0], a.Type().(*types.Pointer).Elem()), true
+			}
+		}
+	}
+	return Val{}, false
 }
